@@ -718,6 +718,204 @@ theorem C10_swap_contract (c : Cfg) (w : World) (s s2 : Nat) (a b : Img) (hs : w
     exact ⟨rfl, by simp, fun hne => by simp [hne], rfl, rfl⟩
   · intro h hnd; rw [if_neg h]; simp [hnd]
 
+/-! ### copy / converting copy, copy assignment, move assignment: strong guarantee, deep copies, adoption of storage -/
+
+/-- STRONG GUARANTEE of the copy constructor and the converting copy constructor (`.copy s s2` with slots of equal / different organisation):
+    if the allocation throws, no image, no block and no log entry has changed -/
+theorem C10_copy_bad_alloc_no_effect (c : Cfg) (w : World) (s s2 : Nat) (hf : (step c w (.copy s s2)).2 = .badAlloc) :
+    (step c w (.copy s s2)).1.imgs = w.imgs ∧ (step c w (.copy s s2)).1.heap = w.heap ∧ (step c w (.copy s s2)).1.log = w.log := by
+  cases h1 : c.orgOf s <;> cases h2 : c.orgOf s2 <;> cases h3 : w.imgs s <;> cases h4 : w.imgs s2 <;>
+    simp only [step, h1, h2, h3, h4] at hf ⊢ <;> first | (cases hf; done) | exact pCtor_badAlloc _ _ _ _ _ _ _ _ _ hf
+
+
+/-- STRONG GUARANTEE of copy assignment and converting assignment (`image tmp(img); swap(tmp);`): if the allocation or an element construction
+    of the temporary throws, EVERY slot -- the target included -- holds exactly the image it held before; after bad_alloc heap and log are untouched too -/
+theorem C10_assign_strong_guarantee (c : Cfg) (w : World) (s s2 : Nat)
+    (hf : (step c w (.assign s s2)).2 = .badAlloc ∨ (step c w (.assign s s2)).2 = .ctorThrow) :
+    (step c w (.assign s s2)).1.imgs = w.imgs ∧
+    ((step c w (.assign s s2)).2 = .badAlloc → (step c w (.assign s s2)).1.heap = w.heap ∧ (step c w (.assign s s2)).1.log = w.log) := by
+  cases h1 : c.orgOf s <;> cases h2 : c.orgOf s2 <;> simp only [step, h1, h2] at hf ⊢
+  all_goals first | (simp at hf; done) | skip
+  unfold stepAssign at hf ⊢
+  cases h3 : w.imgs s <;> cases h4 : w.imgs s2 <;> simp only [h3, h4] at hf ⊢
+  all_goals first | (simp at hf; done) | skip
+  split
+  · rename_i hd; rw [if_pos hd] at hf; exact absurd hf (by simp)
+  · rename_i hd; rw [if_neg hd] at hf
+    have e := swapWithTmp_throw c _ _ s hf
+    rw [e] at hf ⊢
+    exact ⟨pCtor_fail_imgs _ _ _ _ _ _ _ _ _ (by rcases hf with hf | hf <;> rw [hf] <;> intro x <;> cases x),
+      fun hb => (pCtor_badAlloc _ _ _ _ _ _ _ _ _ hb).2⟩
+
+/-- STRONG GUARANTEE of move assignment (only the branch "unequal non-propagating allocators, source owns storage" can throw: it copies with
+    the target's allocator BEFORE it changes anything): if it throws, every slot holds exactly the image it held before -/
+theorem C10_massign_strong_guarantee (c : Cfg) (w : World) (s s2 : Nat)
+    (hf : (step c w (.massign s s2)).2 = .badAlloc ∨ (step c w (.massign s s2)).2 = .ctorThrow) :
+    (step c w (.massign s s2)).1.imgs = w.imgs ∧
+    ((step c w (.massign s s2)).2 = .badAlloc → (step c w (.massign s s2)).1.heap = w.heap ∧ (step c w (.massign s s2)).1.log = w.log) := by
+  cases h1 : c.orgOf s <;> simp only [step, h1] at hf ⊢
+  · exact absurd hf (by simp)
+  split
+  · rename_i hside; rw [if_pos hside] at hf
+    unfold stepMoveAssign at hf ⊢
+    cases h3 : w.imgs s <;> cases h4 : w.imgs s2 <;> simp only [h3, h4] at hf ⊢
+    all_goals first | (simp at hf; done) | skip
+    split
+    · rename_i hc; rw [if_pos hc] at hf; exact absurd hf (by simp)
+    · rename_i hc; rw [if_neg hc] at hf
+      split
+      · rename_i hc; rw [if_pos hc] at hf; exact absurd hf (by simp)
+      · rename_i hc; rw [if_neg hc] at hf
+        split
+        · rename_i hc; rw [if_pos hc] at hf; exact absurd hf (by simp)
+        · rename_i hc; rw [if_neg hc] at hf
+          split
+          · rename_i hc; rw [if_pos hc] at hf; exact absurd hf (by simp)
+          · rename_i hc; rw [if_neg hc] at hf
+            split
+            · rename_i hc; rw [if_pos hc] at hf
+              have e := andThen_throw _ _ (fun _ => rfl) hf
+              rw [e] at hf ⊢
+              exact ⟨pCtor_fail_imgs _ _ _ _ _ _ _ _ _ (by rcases hf with hf | hf <;> rw [hf] <;> intro x <;> cases x),
+                fun hb => (pCtor_badAlloc _ _ _ _ _ _ _ _ _ hb).2⟩
+            · rename_i hc; rw [if_neg hc] at hf
+              split
+              · rename_i hc; rw [if_pos hc] at hf; exact absurd hf (by simp)
+              · rename_i hc; rw [if_neg hc] at hf; exact absurd hf (by simp)
+  · rename_i hside; rw [if_neg hside] at hf; exact absurd hf (by simp)
+
+/-- copy assignment / converting assignment is DEEP: on success the target has the source's dimensions and pixel values, the source is
+    untouched, and the target's storage is not the source's (same dimensions: its own old block, by the ownership invariant; otherwise the block
+    just allocated for the temporary) -- so later writes to either cannot show in the other (C10_write_frame) -/
+theorem C10_assign_deep_copy (c : Cfg) (w : World) (s s2 : Nat) (a b : Img) (o : Org) (h : Inv c w) (ho : c.orgOf s = some o)
+    (ho2 : (c.orgOf s2).isSome) (hne : s ≠ s2) (hs : w.imgs s = some a) (hs2 : w.imgs s2 = some b) (htmp : w.imgs tmpSlot = none)
+    (hnz : o.needed b.align b.w b.h ≠ 0) (hok : (step c w (.assign s s2)).2 = .ok) :
+    ∃ j, (step c w (.assign s s2)).1.imgs s = some j ∧ j.w = b.w ∧ j.h = b.h ∧ j.pix = b.pix ∧ (∀ m, j.mem = some m → b.mem ≠ some m)
+      ∧ (step c w (.assign s s2)).1.imgs s2 = some b := by
+  have hst : s ≠ tmpSlot := by intro e; rw [e, htmp] at hs; cases hs
+  have hs2t : s2 ≠ tmpSlot := by intro e; rw [e, htmp] at hs2; cases hs2
+  have hb : b.mem ≠ some w.heap.length := by
+    intro e
+    obtain ⟨blk, hblk, -⟩ := h.owned s2 b _ hs2 e
+    have : w.heap.length < w.heap.length := (List.getElem?_eq_some_iff.mp hblk).1
+    omega
+  cases ho2' : c.orgOf s2 with
+  | none => simp [ho2'] at ho2
+  | some o2 =>
+  simp only [step, ho, ho2', stepAssign, hs, hs2] at hok ⊢
+  split
+  · refine ⟨{ a with pix := b.pix }, by simp, by rename_i hd; exact hd.1, by rename_i hd; exact hd.2, rfl, ?_, by simp [Ne.symm hne, hs2]⟩
+    intro m hm hbm
+    exact hne (h.unique s s2 a b m hs hs2 hm hbm)
+  · rename_i hd
+    rw [if_neg hd] at hok
+    generalize hr : pCtor c o w tmpSlot { Img.fresh b.align b.tag with allocated := b.allocated } b.w b.h b.pix (some (b.w, b.h)) = r at hok ⊢
+    have hrok : r.2 = .ok := by
+      cases hr2 : r.2 <;> simp only [swapWithTmp, andThen, hr2] at hok <;> first | rfl | cases hok
+    obtain ⟨j, hj, hjw, hjh, hjp, hjm, -, -, -⟩ := pCtor_ok_img c o w tmpSlot { Img.fresh b.align b.tag with allocated := b.allocated } b.w b.h b.pix
+      (some (b.w, b.h)) hnz (by rw [hr]; exact hrok)
+    have hother := (pCtor_imgs c o w tmpSlot { Img.fresh b.align b.tag with allocated := b.allocated } b.w b.h b.pix (some (b.w, b.h))).1
+    rw [hr] at hj hother
+    have hrs : r.1.imgs s = some a := by rw [hother s hst]; exact hs
+    have hrs2 : r.1.imgs s2 = some b := by rw [hother s2 hs2t]; exact hs2
+    simp only [swapWithTmp, andThen, hrok] at hok ⊢
+    by_cases hsw : c.pocs = true ∨ a.tag = j.tag
+    · have hp : pSwap c r.1 s tmpSlot = ((r.1.setImg s (some j)).setImg tmpSlot (some a), .ok) := by
+        unfold pSwap; simp only [hrs, hj]; rw [if_pos hsw]
+      rw [hp]
+      refine ⟨j, by simp [pDtor_imgs, hst], hjw, hjh, hjp, ?_, by simp [pDtor_imgs, hs2t, Ne.symm hne, hrs2]⟩
+      intro m hm; rw [hjm] at hm; cases hm; exact hb
+    · by_cases hnd : c.ndebug = true
+      · have hp : pSwap c r.1 s tmpSlot = ((r.1.setImg s (some { j with tag := a.tag })).setImg tmpSlot (some { a with tag := j.tag }), .ok) := by
+          unfold pSwap; simp only [hrs, hj]; rw [if_neg hsw, if_pos hnd]
+        rw [hp]
+        refine ⟨{ j with tag := a.tag }, by simp [pDtor_imgs, hst], hjw, hjh, hjp, ?_, by simp [pDtor_imgs, hs2t, Ne.symm hne, hrs2]⟩
+        intro m hm; simp only [hjm] at hm; cases hm; exact hb
+      · have hp : pSwap c r.1 s tmpSlot = (r.1, .assertFail "_alloc==img._alloc") := by
+          unfold pSwap; simp only [hrs, hj]; rw [if_neg hsw, if_neg hnd]
+        rw [hp] at hok; simp at hok
+
+/-- move assignment that can ADOPT the source's storage -- propagating allocators (choose_pocma), or non-propagating allocators that are
+    different objects but compare equal: the target takes over block, recorded size, alignment, dimensions and pixels of the source (its allocator
+    only when it propagates), the source is left a valid empty image, NOTHING is allocated, and the only allocator event is the release of the
+    target's old block with its recorded size through the target's OLD allocator (before the source's allocator is adopted) -/
+theorem C10_massign_adopts (c : Cfg) (w : World) (s s2 : Nat) (a b : Img) (o : Org) (ho : c.orgOf s = some o) (hside : (s < 4) = (s2 < 4))
+    (hne : s ≠ s2) (hs : w.imgs s = some a) (hs2 : w.imgs s2 = some b)
+    (hbr : c.movePropagates = true ∨ ((o.pixel = true ∨ c.elemMoveCompiles = true) ∧ a.tag = b.tag)) :
+    (step c w (.massign s s2)).2 = .ok ∧
+    (step c w (.massign s s2)).1.imgs s = some { b with tag := if c.movePropagates then b.tag else a.tag } ∧
+    (∃ r, (step c w (.massign s s2)).1.imgs s2 = some r ∧ r.mem = none ∧ r.allocated = 0 ∧ r.w = 0 ∧ r.h = 0 ∧ r.pix = []) ∧
+    ((step c w (.massign s s2)).1.log = w.log ∨
+      ∃ bk, a.mem = some bk ∧ (step c w (.massign s s2)).1.log = Event.dealloc bk a.allocated a.tag :: w.log) := by
+  have key : ∀ t : Bool, (pAdopt o w s s2 t).imgs s = some { b with tag := if t then b.tag else a.tag } ∧
+      (∃ r, (pAdopt o w s s2 t).imgs s2 = some r ∧ r.mem = none ∧ r.allocated = 0 ∧ r.w = 0 ∧ r.h = 0 ∧ r.pix = []) ∧
+      ((pAdopt o w s s2 t).log = w.log ∨ ∃ bk, a.mem = some bk ∧ (pAdopt o w s s2 t).log = Event.dealloc bk a.allocated a.tag :: w.log) := by
+    intro t
+    unfold pAdopt
+    simp only [hs, hs2]
+    refine ⟨by simp [hne], ⟨{ b.cleared with align := 0 }, by simp, by simp [Img.cleared]⟩, ?_⟩
+    exact release_log o w a
+  simp only [step, ho, hside, if_true, stepMoveAssign, hs, hs2, if_neg hne]
+  by_cases hp : c.movePropagates = true
+  · rw [if_pos hp]
+    have := key true
+    simpa [hp] using this
+  · rcases hbr with hbr | ⟨hcomp, heq⟩
+    · exact absurd hbr hp
+    · rw [if_neg hp]
+      have hnc : ¬ ((!o.pixel) = true ∧ (!c.elemMoveCompiles) = true) := by
+        rcases hcomp with h | h <;> simp [h]
+      rw [if_neg hnc, if_pos heq]
+      have := key false
+      simpa [hp] using this
+
+/-- move assignment between UNEQUAL non-propagating allocators, source owns storage: the target gets a deep copy built with ITS OWN allocator and
+    alignment in a fresh block (never the source's block), and the source is released and left a valid empty image that keeps its allocator -/
+theorem C10_massign_unequal_copies (c : Cfg) (w : World) (s s2 : Nat) (a b : Img) (o : Org) (ho : c.orgOf s = some o)
+    (hside : (s < 4) = (s2 < 4)) (hne : s ≠ s2) (hs : w.imgs s = some a) (hs2 : w.imgs s2 = some b) (htmp : w.imgs tmpSlot = none)
+    (hnp : c.movePropagates = false) (hcomp : o.pixel = true ∨ c.elemMoveCompiles = true) (hneq : a.tag ≠ b.tag)
+    (hmem : b.mem.isSome = true) (hnz : o.needed a.align b.w b.h ≠ 0) (hok : (step c w (.massign s s2)).2 = .ok) :
+    (∃ j, (step c w (.massign s s2)).1.imgs s = some j ∧ j.w = b.w ∧ j.h = b.h ∧ j.pix = b.pix ∧ j.mem = some w.heap.length
+        ∧ j.tag = a.tag ∧ j.align = a.align) ∧
+    (∃ r, (step c w (.massign s s2)).1.imgs s2 = some r ∧ r.mem = none ∧ r.allocated = 0 ∧ r.w = 0 ∧ r.h = 0 ∧ r.pix = [] ∧ r.tag = b.tag) := by
+  have hst : s ≠ tmpSlot := by intro e; rw [e, htmp] at hs; cases hs
+  have hs2t : s2 ≠ tmpSlot := by intro e; rw [e, htmp] at hs2; cases hs2
+  have hnc : ¬ ((!o.pixel) = true ∧ (!c.elemMoveCompiles) = true) := by
+    rcases hcomp with h | h <;> simp [h]
+  have hp : ¬ c.movePropagates = true := by simp [hnp]
+  simp only [step, ho, hside, if_true, stepMoveAssign, hs, hs2, if_neg hne, if_neg hp, if_neg hnc, if_neg hneq, hmem] at hok ⊢
+  generalize hr : pCtor c o w tmpSlot (Img.fresh a.align a.tag) b.w b.h b.pix (some (b.w, b.h)) = r at hok ⊢
+  have hrok : r.2 = .ok := by
+    cases hr2 : r.2 <;> simp only [andThen, hr2] at hok <;> first | rfl | cases hok
+  obtain ⟨j, hj, hjw, hjh, hjp, hjm, hjt, hja, -⟩ := pCtor_ok_img c o w tmpSlot (Img.fresh a.align a.tag) b.w b.h b.pix
+    (some (b.w, b.h)) hnz (by rw [hr]; exact hrok)
+  have hother := (pCtor_imgs c o w tmpSlot (Img.fresh a.align a.tag) b.w b.h b.pix (some (b.w, b.h))).1
+  rw [hr] at hj hother
+  have hrs : r.1.imgs s = some a := by rw [hother s hst]; exact hs
+  have hrs2 : r.1.imgs s2 = some b := by rw [hother s2 hs2t]; exact hs2
+  have hA := pAdopt_imgs o r.1 s tmpSlot false a j hrs hj
+  have hA2 : (pAdopt o r.1 s tmpSlot false).imgs s2 = some b := by rw [hA]; simp [hs2t, Ne.symm hne, hrs2]
+  have hR := pRelease_imgs o s2 b hA2
+  simp only [andThen, hrok, pDtor_imgs]
+  constructor
+  · refine ⟨{ j with tag := a.tag }, ?_, hjw, hjh, hjp, hjm, rfl, hja⟩
+    rw [if_neg hst, hR, if_neg hne, hA]; simp [hst]
+  · refine ⟨b.cleared, ?_, by simp [Img.cleared]⟩
+    rw [if_neg hs2t, hR]; simp
+
+private def pmrX : Cfg := { pocma := false, pocs := false, empty := false, ntags := 3, ndebug := false, org := { mstep := 3, b2m := 1, chans := 3, planar := false, nontrivial := false, pixel := true }, porg := none }
+
+/-- non-vacuity of the hypotheses above: a copy / copy assignment / move assignment that ends with bad_alloc, a successful deep copy
+    assignment that needs storage, a successful move assignment between unequal non-propagating allocators -/
+example :
+    (step seRgbX (run seRgbX (World.init (some 1) none) [.dims 0 0 0 3 2 7]) (.copy 1 0)).2 = .badAlloc
+    ∧ (step seRgbX (run seRgbX (World.init (some 2) none) [.dims 0 0 0 3 2 7, .dims 1 0 0 4 4 1]) (.assign 0 1)).2 = .badAlloc
+    ∧ (step pmrX (run pmrX (World.init (some 2) none) [.dims 0 1 0 3 2 7, .dims 1 2 0 4 4 1]) (.massign 0 1)).2 = .badAlloc
+    ∧ (step seRgbX (run seRgbX (World.init none none) [.dims 0 0 0 3 2 7, .dims 1 0 0 4 4 1]) (.assign 0 1)).2 = .ok
+    ∧ (step pmrX (run pmrX (World.init none none) [.dims 0 1 0 3 2 7, .dims 1 2 0 4 4 1]) (.massign 0 1)).2 = .ok
+    ∧ pmrX.movePropagates = false ∧ seRgbX.movePropagates = true := by
+  decide +kernel
+
 /-! ### what the current code gets wrong (machine-checked negations, replayed on the real headers by the harness) -/
 
 private def rgb8 : Org := { mstep := 3, b2m := 1, chans := 3, planar := false, nontrivial := false, pixel := true }
